@@ -1,6 +1,6 @@
 """C09 — any shape round-trips: size-1 dimensions, tiny arrays, 5-D refused cleanly."""
 import itertools, json, os, struct
-import lib, gen
+import lib, gen, classes
 
 LEVEL = "proof"
 PROP_FILE = "Properties_C09"
@@ -65,9 +65,15 @@ def gen_cases(chk):
         n = prod(t)
         for ty in ([0, 1] + rng.sample(range(2, 10), 8 if thorough else 2)):
             mode = rng.choice((0, 1))
-            scale = rng.choice((1.0, 100.0, 1e-3)) if ty < 2 else rng.choice((50.0, 1000.0))
-            off = 0.0 if ty < 2 else (scale * 2 if ty in (2, 4, 6, 8) else 0.0)
-            absb = rng.choice((1e-1, 1e-2, 1e-3)) * scale if ty < 2 else rng.choice((1.0, 2.0, 5.0))
+            if ty < 2:
+                scale, off = rng.choice((1.0, 100.0, 1e-3)), 0.0
+                absb = rng.choice((1e-1, 1e-2, 1e-3)) * scale
+            else:
+                # integers: keep every Lorenzo extrapolation inside the type's range (the extremes are C03's
+                # classes, not a matter of shape): amplitude a around a centre >= 16 a (unsigned) or 0 (signed)
+                a_ = rng.choice((3.0, 5.0)) if ty in (2, 3) else rng.choice((50.0, 1000.0))
+                scale, off = a_, (a_ * 20 if ty in (2, 4, 6, 8) else 0.0)
+                absb = rng.choice((1.0, 2.0)) if ty in (2, 3) else rng.choice((1.0, 2.0, 5.0))
             rel = rng.choice((1e-2, 1e-3))
             cfg = rng.choice(("-", "szMode=SZ_BEST_SPEED", "-", "withLinearRegression=NO"))
             data = "g:%d:%x:%x:%s:%s" % (rng.choice((0, 0, 1, 2, 3)), rng.getrandbits(24), n, dbits(scale), dbits(off))
@@ -93,8 +99,8 @@ def rt_oracle(case, out, pred):
         return "implementation died: " + out
     d = kv(out)
     if genuine5:
-        # either refused with NULL, or served correctly
-        if d.get("st") == "null":
+        # either refused (NULL from the compressor, or NULL from the decompressor), or served correctly
+        if d.get("st") in ("null", "dec-null"):
             return None
     if d.get("st") != "ok":
         return "round trip failed: " + out[:120]
@@ -108,9 +114,6 @@ def rt_oracle(case, out, pred):
     return None
 
 
-def classify(case):
-    """known-finding class of a failing round-trip case, or None"""
-    return None
 
 
 def run(chk):
@@ -145,7 +148,7 @@ def run(chk):
             continue
         why = rt_oracle(c, r, pd)
         if why:
-            cls = classify(c)
+            cls = classes.classify(c, r)
             if cls and cls in chk.known_classes:
                 chk.known(cls, chk.known_classes[cls]["text"])
                 continue
